@@ -334,7 +334,7 @@ pub fn run(ctx: &Ctx) -> i32 {
     rep.assume("`zero` being accepted as the immediate 0 is noted, not judged");
     let n_random: usize = ctx.tier.pick(100_000, 1_000_000);
     let jobs = ctx.jobs;
-    let acc = crate::report::run_sharded(jobs, |shard| {
+    let acc = crate::report::run_sharded(ctx, |shard| {
         let mut acc = Acc::new();
         let mut rng = Rng::derive(ctx.seed, 17, shard as u64);
         // ---- boundaries, exhaustively (sharded round-robin)
